@@ -247,7 +247,7 @@ func (CoreScenario) Gen(r *rand.Rand, prop string) *SvcCase {
 		}
 		op.Ep = r.IntN(c.Epochs)
 		op.Script = yields(r, 2)
-		if withQE && strings.HasPrefix(op.Subject, "call.") && !strings.HasSuffix(op.Subject, ".new") && chance(r, 40) && c.Epochs == 1 {
+		if withQE && strings.HasPrefix(op.Subject, "call.") && !strings.HasSuffix(op.Subject, ".new") && chance(r, 40) {
 			op.Script = append(op.Script, "qe:y,"+pick(r, "model", "coll", "chg", "notfound", ""))
 			nqe++
 		}
